@@ -201,6 +201,31 @@ async def script_echo(spec: dict[str, Any], run: Run) -> None:
         env.cleanup()
 
 
+async def cross(spec: dict[str, Any], run: Run) -> None:
+    """Concurrent multi-session workload (the C01 generator with content-
+    bearing FETCH attributes) read through the strict grammar: data about
+    messages that another session has just expunged is where placeholder or
+    half-built values reach the wire."""
+    from ..workload import DEFAULT_WEIGHTS, History
+    from . import c01
+    from .. import workload
+    hist = History(str(spec['seed']))
+    old_attrs = workload.ID_ATTRS
+    workload.ID_ATTRS = (b'(UID FLAGS RFC822.SIZE ENVELOPE BODYSTRUCTURE '
+                         b'INTERNALDATE BODY.PEEK[HEADER.FIELDS (X-VF-ID)] '
+                         b'BODY.PEEK[TEXT]<0.20>)')
+    try:
+        await c01.run_sessions(spec, hist, dict(DEFAULT_WEIGHTS,
+                                                fetch_all=5, fetch_some=4))
+    finally:
+        workload.ID_ATTRS = old_attrs
+    for s in hist.sessions:
+        run.conns.append(s.conn)
+        run.count('commands', len(s.results))
+    run.count('cross_cases')
+    run.kinds.add('cross:%d' % len(hist.order))
+
+
 async def asyncio_yield(c: Conn) -> None:
     loop = c.loop
     await loop.quiescent()     # type: ignore[attr-defined]
@@ -260,6 +285,15 @@ class C07(Check):
             yield {'seed': seed * 1_000_003 + i,
                    'backend': rng.choice(['dict', 'dict', 'dict', 'maildir',
                                           'maildir-fs'])}
+        from .c01 import schedule_family
+        for i in range(n // 5):
+            nsess = rng.choice([2, 3])
+            yield {'kind': 'cross', 'seed': seed * 1_000_003 + n + i,
+                   'backend': rng.choice(['dict', 'dict', 'maildir']),
+                   'nsess': nsess, 'nmsgs': rng.randint(3, 6),
+                   'ncmds': rng.randint(3, 8),
+                   'sched': schedule_family(rng, nsess),
+                   'deliverer': rng.random() < 0.3}
 
     def run_case(self, spec: dict[str, Any]) -> dict[str, Any]:
         random.seed(spec['seed'])
@@ -268,6 +302,8 @@ class C07(Check):
         async def main(loop: L.CtlLoop) -> None:
             if 'script' in spec:
                 await script_echo(spec, run)
+            elif spec.get('kind') == 'cross':
+                await cross(spec, run)
             else:
                 await drive(spec, run)
 
@@ -283,7 +319,7 @@ class C07(Check):
             if v['mech'] not in seen:
                 seen.add(v['mech'])
                 uniq.append(v)
-        if uniq:
+        if uniq and run.conns:
             uniq[0]['witness']['transcript'] = run.conns[0].dump()[-80:]
         sig = hashlib.sha1(repr(sorted(run.kinds)).encode()).hexdigest()[:16]
         return {'violations': uniq, 'counters': run.counters, 'sig': sig,
